@@ -98,6 +98,7 @@ func ValidateSchemaDocument(sd *SchemaDocument) (*Schema, error) {
 				// fails is if the server is using features newer than this
 				// version of gqlparser, in which case they're in trouble
 				// anyway.
+				continue
 			default:
 				return nil, gqlerror.ErrorPosf(dir.Position, "Cannot redeclare directive %s.", dir.Name)
 			}
